@@ -168,7 +168,7 @@ package varmq
 //@ pred StreamOK(r *helpers.Response, wgc *helpers.WgCounter) := r != nil && r.ch != nil && (wgc.count >= 1 ==> $open(r.ch))
 
 //@ func newGroupJob
-//@   props C05 C08
+//@   props C05 C08 C03 C07
 //@   requires 0 <= bufferSize && bufferSize <= MaxUint32
 //@   modifies $alloc
 //@   ensures [fresh] $fresh(result) && result.wgc != nil && $fresh(result.wgc) && result.wgc.count == bufferSize && RI_Wgc(result.wgc)
@@ -196,7 +196,7 @@ package varmq
 //@   ensures [ri]         RI_member($addr(gj.job)) && RI_Wgc(gj.wgc)
 
 //@ func newResultGroupJob
-//@   props C08 C05
+//@   props C08 C05 C03 C07
 //@   requires 0 <= bufferSize && bufferSize <= MaxUint32
 //@   modifies $alloc
 //@   ensures [fresh]  $fresh(result) && result.wgc != nil && $fresh(result.wgc) && result.wgc.count == bufferSize && RI_Wgc(result.wgc)
@@ -231,7 +231,7 @@ package varmq
 //@   ensures [ri]      RI_member($addr(gj.resultJob.job)) && RI_Wgc(gj.wgc) && StreamOK(gj.resultJob.Response, gj.wgc)
 
 //@ func newErrorGroupJob
-//@   props C08 C05
+//@   props C08 C05 C03 C07
 //@   requires 0 <= bufferSize && bufferSize <= MaxUint32
 //@   modifies $alloc
 //@   ensures [fresh]  $fresh(result) && result.wgc != nil && $fresh(result.wgc) && result.wgc.count == bufferSize && RI_Wgc(result.wgc)
